@@ -579,8 +579,13 @@ def subscript(interp, base, idx):
         if f is not None:
             return interp.call(f, [idx])
     if isinstance(base, K) and isinstance(base.v, (tuple, str, bytes)):
-        return T('sub', base, interp.termify(idx))
-    return T('sub', interp.termify(base), interp.termify(idx))
+        t = T('sub', base, interp.termify(idx))
+    else:
+        t = T('sub', interp.termify(base), interp.termify(idx))
+    if '[]' in interp.call_raises and isinstance(idx, T):
+        # a rule asked for the failure modes of indexing to be explored
+        interp.may_raise('[]', t)
+    return t
 
 
 # ---------------------------------------------------------------- struct
